@@ -17,13 +17,13 @@ ID = 'C19'
 LEVEL = 'exploration'
 RULE = ('generated plausible parameter sets for Jet / Turboprop / Piston engines (built with '
         'Bada3AircraftParameters) x generated flight profiles (climb/cruise/descent mixes, '
-        'accelerations, cruise flags, ISA +-20 K, wind, scalar segment length, 3-200 points) x '
+        'accelerations, cruise flags given as bool / 0-1 integer / 0.-1. float arrays, ISA +-20 K, wind, one scalar segment length or one length per segment incl. zero, 3-200 points) x '
         'prescribed initial / final masses x n_iter 1-10 x the four iteration modes; oracle: '
         'first (last) element = prescribed mass, profile non-increasing, m = m0 - cumulative '
         'trapezoid of 1/SGR_last with SGR_last the last recorded evaluation (mirrored for the '
         'backward mode), every recorded SGR / thrust / fuel flow equals the independent scalar '
         'BADA 3.x equations at the recorded mass (rel 1e-9), fuel-dependent modes: max(m) <= '
-        'MTOM and m0 = min(OEW + MPL*LF + burn (+reserve), MTOM); class = (engine type, mode, '
+        'MTOM and m0 = min(OEW + MPL*LF + burn (+reserve), MTOM); input arrays unmodified; class = (engine type, mode, '
         'thrust branch reached, n_iter)')
 ASSUMPTIONS = [
     'BADA 3.x user-manual equations with their units (piston C_f1 in kg/min) are the reference; '
@@ -50,7 +50,10 @@ def required(tier):
     cl = [f'engine:{e}' for e in ('Jet', 'Turboprop', 'Piston')] + [f'mode:{m}' for m in MODES]
     cl += ['thrust:total-energy', 'thrust:capped-by-max-climb', 'thrust:capped-by-max-cruise',
            'thrust:descent-high', 'thrust:descent-low', 'cruise-flag:mixed', 'temperature:hot',
-           'mtom:binding', 'mtom:not-binding', 'profile:monotone-checked']
+           'mtom:binding', 'mtom:not-binding', 'profile:monotone-checked',
+           'cruise-flag-type:bool', 'cruise-flag-type:int', 'cruise-flag-type:float',
+           'segment-distance:scalar', 'segment-distance:per-segment:constant_final',
+           'segment-distance:per-segment:constant_initial']
     return {'classes': cl, 'evaluations': 1000}
 
 
@@ -120,10 +123,18 @@ def gen_profile(rng, p):
     gs = v + np.array([rng.uniform(-30, 30) for _ in range(n)]) * (0.3 if vcr < 100 else 1)
     gs = np.maximum(gs, 10.0)
     dx = rng.uniform(2e3, 6e4) * (0.2 if p['engine_type'] == 'Piston' else 1)
+    dx_kind = 'scalar'
+    if rng.random() < 0.35:             # one length per segment (documented: float or array)
+        dx = np.array([dx * rng.choice([rng.uniform(0.05, 3.0), 1.0, 0.0 if rng.random() < 0.1
+                                        else 0.5]) for _ in range(n - 1)])
+        dx_kind = 'per-segment'
+    # the cruise flag is documented as "float or array": booleans, 0/1 integers, 0./1. floats
+    flag_kind = rng.choice(['bool', 'bool', 'int', 'float'])
+    flags = np.array(cruise).astype({'bool': bool, 'int': np.int64, 'float': float}[flag_kind])
     return dict(temperature=T, altitude=alt, v_tas=v, rocd=np.array(rocd), acceleration=acc,
-                in_cruise=np.array(cruise), groundspeed=gs, segment_distance=dx), \
+                in_cruise=flags, groundspeed=gs, segment_distance=dx), \
         {'n': n, 'dT': dT, 'hot': dT > p['c_tc4'] + 1 and p['c_tc5'] > 0,
-         'mixed_cruise': 0 < sum(cruise) < n}
+         'mixed_cruise': 0 < sum(cruise) < n, 'flags': flag_kind, 'dx_kind': dx_kind}
 
 
 def run_shard(spec, rec):
@@ -146,7 +157,9 @@ def run_shard(spec, rec):
         mode = MODES[k % 4] if rng.random() < 0.8 else rng.choice(MODES)
         n_iter = rng.randint(1, 10)
         desc = {'engine': p['engine_type'], 'mode': mode, 'n_iter': n_iter, **pd_,
-                'segment_distance': prof['segment_distance']}
+                'segment_distance': (prof['segment_distance'] if pd_['dx_kind'] == 'scalar'
+                                     else prof['segment_distance'][:8].tolist())}
+        inputs_before = {kk: np.array(vv, copy=True) for kk, vv in prof.items()}
         try:
             ap = Bada3AircraftParameters()
             ap.assign_parameters_fromdict(dict(p, ac_type='HRN', max_mass=p['ref_mass'] * 1.2,
@@ -238,8 +251,9 @@ def run_shard(spec, rec):
             # ---- the returned vector is the trapezoid integral of the LAST evaluation ---------
             sgr = calls[-1][1]
             inv = np.where(sgr < 1, 0.0, 1.0 / np.where(sgr < 1, 1.0, sgr))
-            dx = float(prof['segment_distance'])
-            steps = [0.5 * (float(inv[i]) + float(inv[i + 1])) * dx for i in range(n - 1)]
+            dxs = np.broadcast_to(np.asarray(prof['segment_distance'], float), (n - 1,))
+            steps = [0.5 * (float(inv[i]) + float(inv[i + 1])) * float(dxs[i])
+                     for i in range(n - 1)]
             if mode == 'constant_final':
                 if not rel(float(mass[-1]), m0, 1e-12):
                     raise Mismatch('profile does not end at the prescribed final mass',
@@ -269,6 +283,13 @@ def run_shard(spec, rec):
                                {'point': i + 1, 'before': float(mass[i]),
                                 'after': float(mass[i + 1]), **desc})
             rec.cls('profile:monotone-checked')
+            for kk, vv in prof.items():
+                b = inputs_before[kk]
+                if np.asarray(vv).dtype != b.dtype or not np.array_equal(np.asarray(vv), b):
+                    raise Mismatch('the fuel-burn model modified one of its input arrays',
+                                   {'input': kk, **desc})
+            rec.cls(f'cruise-flag-type:{pd_["flags"]}', f'segment-distance:{pd_["dx_kind"]}',
+                    f'segment-distance:{pd_["dx_kind"]}:{mode}')
             if mode in ('rf_fraction', 'rf_value'):
                 if float(mass.max()) > mtow * (1 + 1e-12):
                     raise Mismatch('fuel-dependent initial mass exceeds maximum take-off mass',
